@@ -70,8 +70,8 @@ RequestCountFails(t) ==
              items == SelectSeq(Tail(Kids(t)), LAMBDA k : k.tag = TagBatchItem) IN
          IF HasKid(h, TagBatchCount) /\ Kid(h, TagBatchCount).typ = TInteger
             \* (a negative count is read as "no items" by the library and answered with an empty batch: nothing is executed)
-            /\ Kid(h, TagBatchCount).val[1] < 128 /\ NatOf(Kid(h, TagBatchCount)) > Len(items)
-         THEN {"request BatchCount exceeds the number of batch items"} ELSE {}
+            /\ Kid(h, TagBatchCount).val[1] < 128 /\ NatOf(Kid(h, TagBatchCount)) # Len(items)
+         THEN {"request BatchCount differs from the number of batch items"} ELSE {}
 
 \* version carried by a response header, as major*10+minor (-1 if unreadable)
 VersionOf(t) ==
